@@ -99,9 +99,12 @@ pub struct WorkerResult {
 
 /// violations that count for the property under check: its own, and any server death
 fn relevant<'a>(property: &str, out: &'a Outcome) -> Vec<&'a Violation> {
+    // development aid: WBSIM_ALL_PROPS=1 reports what the oracles of the *other* properties have
+    // to say about this property's workload as well (latent model imprecision shows up there)
+    let all = std::env::var("WBSIM_ALL_PROPS").is_ok();
     out.violations
         .iter()
-        .filter(|v| v.property == property || v.rule == "server-death")
+        .filter(|v| all || v.property == property || v.rule == "server-death")
         .collect()
 }
 
